@@ -27,6 +27,16 @@ META = {
         "design_ref": "DESIGN.md §5 C18", "note": HUB_NOTE,
         "technique": "Coq proof (hub LTS invariant; list/codec lemmas; decision-function case analysis) + differential correspondence of API probes evaluated in Coq",
     },
+    "C19": {
+        "text": "Coq theorems over a model of UnmarshalCaddyfile + populateJWTConfig + Provision + NewHub's option validation and of the legacy options (every directive "
+                "list, every field record, every legacy record; key and origin validity as parameters): whatever is accepted has a usable publisher key, a usable subscriber "
+                "key unless anonymous mode was asked for, and only valid origins; no publisher key / no subscriber key without anonymous / a protocol version other than 7 "
+                "are refused; omitted options take the restrictive defaults; flags are in effect once written, valued directives by their last occurrence, directives of "
+                "different kinds commute. Tied to the code by provisioning the real module and the legacy hub in-process on generated configurations and probing the "
+                "resulting handler.",
+        "design_ref": "DESIGN.md §5 C19", "note": "full for the directives modelled; JWKS URLs, placeholders, demo/ui and mixing transport with transport_url are outside the model",
+        "technique": "Coq proof (fold characterisation of the directive list; decision-function case analysis) + differential correspondence of provisioning outcomes and handler probes evaluated in Coq",
+    },
     "C16": {
         "text": "Coq theorems over a timed automaton of the subscribe handler (Z nanoseconds; every configuration, expiry and arrival times): the write deadline is "
                 "min(write timeout, token expiry) with absent terms dropped and the disconnection timer is armed iff a write timeout exists, one dispatch timeout earlier; "
